@@ -8,6 +8,7 @@ import sys
 
 ROOT = os.path.dirname(os.path.dirname(os.path.abspath(__file__)))
 sys.path.insert(0, ROOT)
+sys.path.insert(0, os.path.join(os.environ.get("VERIF_REPO", "/repo"), "src"))  # the tree under test
 os.environ.setdefault("TZ", "UTC")
 os.environ.pop("VERIF_MODE", None)
 sys.setrecursionlimit(10000)
